@@ -146,6 +146,7 @@ struct Member {
     wire: String,
     required: bool,
     target: String,
+    shape: String, // Smithy type of the target shape: string integer long boolean timestamp list enum structure blob map union ...
 }
 
 struct OpModel {
@@ -178,13 +179,22 @@ fn members_of(shapes: &serde_json::Map<String, serde_json::Value>, shape_id: &st
         } else {
             ("Xml", tr.get("smithy.api#xmlName").and_then(|x| x.as_str()).unwrap_or(name).to_owned())
         };
-        out.push(Member {
-            name: name.clone(),
-            pos,
-            wire,
-            required: tr.contains_key("smithy.api#required"),
-            target: m.get("target").and_then(|t| t.as_str()).unwrap_or("").rsplit('#').next().unwrap_or("").to_owned(),
-        });
+        let target_id = m.get("target").and_then(|t| t.as_str()).unwrap_or("");
+        let target = target_id.rsplit('#').next().unwrap_or("").to_owned();
+        let shape = match shapes.get(target_id).and_then(|s| s.get("type")).and_then(|t| t.as_str()) {
+            Some(t) => t.to_owned(),
+            None => match target.trim_start_matches("Primitive") {
+                "String" => "string",
+                "Integer" => "integer",
+                "Long" => "long",
+                "Boolean" => "boolean",
+                "Timestamp" => "timestamp",
+                "Blob" => "blob",
+                other => panic!("unknown prelude shape {other} for member {name}"),
+            }
+            .to_owned(),
+        };
+        out.push(Member { name: name.clone(), pos, wire, required: tr.contains_key("smithy.api#required"), target, shape });
     }
     out
 }
@@ -241,6 +251,12 @@ fn main() {
     let dtos = parse_dto();
     let model = parse_model(&ops);
     let required = parse_required();
+    // timestamp shapes whose wire format is http-date (whole seconds) wherever they are bound
+    let httpdate_shapes: std::collections::HashSet<String> = {
+        let v: serde_json::Value = serde_json::from_str(&std::fs::read_to_string(format!("{REPO}/data/s3.json")).unwrap()).unwrap();
+        v.get("shapes").and_then(|s| s.as_object()).unwrap().iter().filter(|(_, sh)| sh.pointer("/traits/smithy.api#timestampFormat").and_then(|x| x.as_str()) == Some("http-date")).map(|(id, _)| id.rsplit('#').next().unwrap().to_owned()).collect()
+    };
+    let is_httpdate = |t: &str| httpdate_shapes.contains(t.strip_prefix("Option<").and_then(|x| x.strip_suffix('>')).unwrap_or(t));
     let has_body = |ty: &str| dtos.iter().any(|d| matches!(d, Dto::Struct { name, fields } if name == ty && fields.iter().any(|(f, t)| f == "body" && t == "Option<StreamingBlob>")));
 
     // ---------------------------------------------------------------- ops_gen.rs (G2)
@@ -297,6 +313,7 @@ fn main() {
                 for (f, t) in fields {
                     let p = if is_io { io_pos.get(&(name.clone(), norm(f))).map(|x| x.0) } else { None };
                     let pos_expr = match p {
+                        _ if is_httpdate(t) => "Pos::Header".to_owned(),
                         Some("Status") | None => "pos".to_owned(),
                         Some(p) => format!("Pos::{p}"),
                     };
@@ -314,7 +331,7 @@ fn main() {
                         let inner = &t["Option<".len()..t.len() - 1];
                         writeln!(d, "            {f}: Some(<{inner} as Gen>::base(pos)),").unwrap();
                     } else {
-                        let pos_expr = if is_io { pos_expr } else { "pos".to_owned() };
+                        let pos_expr = if is_io || is_httpdate(t) { pos_expr } else { "pos".to_owned() };
                         writeln!(d, "            {f}: <{t} as Gen>::base({pos_expr}),").unwrap();
                     }
                 }
@@ -330,6 +347,7 @@ fn main() {
                         continue; // bucket names are C12's alphabet
                     }
                     let pos_expr = match (is_io, p) {
+                        _ if is_httpdate(t) => "Pos::Header".to_owned(),
                         (true, Some("Status")) | (false, _) | (true, None) => "pos".to_owned(),
                         (true, Some(p)) => format!("Pos::{p}"),
                     };
@@ -344,6 +362,13 @@ fn main() {
                             continue;
                         }
                         writeln!(d, "        if self.{f} != other.{f} {{ v.push(\"{f}\"); }}").unwrap();
+                    }
+                    writeln!(d, "        v\n    }}").unwrap();
+                    writeln!(d, "    #[allow(unused_mut)]\n    fn absent_fields(&self) -> Vec<&'static str> {{\n        let mut v = Vec::new();").unwrap();
+                    for (f, t) in fields {
+                        if t.starts_with("Option<") {
+                            writeln!(d, "        if self.{f}.is_none() {{ v.push(\"{f}\"); }}").unwrap();
+                        }
                     }
                     writeln!(d, "        v\n    }}\n}}").unwrap();
                 }
@@ -428,7 +453,7 @@ fn main() {
                     }),
                     None => panic!("model member {}.{} has no DTO field in {sname}", om.name, mm.name),
                 };
-                s.push_str(&format!("MemberModel {{ name: {:?}, field: {:?}, pos: Pos::{}, wire: {:?}, required: {}, target: {:?} }}, ", mm.name, field, if mm.pos == "Status" { "Xml" } else { mm.pos }, mm.wire, mm.required, mm.target));
+                s.push_str(&format!("MemberModel {{ name: {:?}, field: {:?}, pos: Pos::{}, wire: {:?}, required: {}, target: {:?}, shape: {:?}, status: {} }}, ", mm.name, field, if mm.pos == "Status" { "Xml" } else { mm.pos }, mm.wire, mm.required, mm.target, mm.shape, mm.pos == "Status"));
             }
             s.push(']');
             s
@@ -445,10 +470,17 @@ fn main() {
         let src = std::fs::read_to_string(&path).expect("read xml/generated.rs");
         let file = syn::parse_file(&src).expect("parse xml/generated.rs");
         let mut sets: std::collections::BTreeMap<String, std::collections::BTreeSet<String>> = Default::default();
+        // content types part of whose value travels as attributes of the *enclosing* element's start tag:
+        // they have no stand-alone encoding and are exercised through the types that contain them
+        let mut attr_types: Vec<String> = Vec::new();
         for item in &file.items {
             if let syn::Item::Impl(im) = item {
                 if let Some((_, tr, _)) = &im.trait_ {
                     let tname = tr.segments.last().map(|s| s.ident.to_string()).unwrap_or_default();
+                    if tname == "DeserializeContent" && quote::quote!(#im).to_string().contains("d . attribute (") {
+                        attr_types.push(ty_str(&im.self_ty));
+                        continue;
+                    }
                     sets.entry(tname).or_default().insert(ty_str(&im.self_ty));
                 }
             }
@@ -476,6 +508,7 @@ fn main() {
         x.push_str(&format!("pub const XML_ROOT_TYPES: usize = {n_root};\npub const XML_CONTENT_TYPES: usize = {n_content};\n"));
         let only_ser: Vec<&String> = ser.difference(de).collect();
         x.push_str(&format!("pub const XML_ENCODE_ONLY_ROOTS: &[&str] = &{only_ser:?};\n"));
+        x.push_str(&format!("pub const XML_ATTRIBUTE_BEARING_CONTENT_TYPES: &[&str] = &{attr_types:?};\n"));
         std::fs::write(Path::new(&out_dir).join("xml_gen.rs"), x).unwrap();
     }
 
